@@ -39,6 +39,8 @@ def _fe_event(f, nid):
         return 'F'
     if s.get('name') in ('erase', 'clear') and n.get('obj') is not None and f.nodes[f.skip(n['obj'])].get('f') == REQ:
         return 'E'
+    if s.get('qname') in ('std::exchange', 'std::move') and n.get('args') and f.nodes[f.skip(n['args'][0])].get('f') == REQ:
+        return 'E'          # the whole table is taken out
     return None
 
 
@@ -58,11 +60,11 @@ def _completes(prog, f, n, depth=0):
 
 # ------------------------------------------------------------------------------------------- R1
 def r1(prog, run):
-    rid = run.rule('C07.R1', 'in the request table every completion is followed by the erasure of that entry on all paths, nothing is erased '
-                             'without completion, and only start/finish/cancelAll/handleStanza touch the table', floor=8)
+    rid = run.rule('C07.R1', 'in the request table an entry is erased and then completed on all paths (never completed while still in the table: the continuation may re-enter), '
+                             'nothing is erased without completion, and only start/finish/cancelAll/handleStanza touch the table', floor=8)
     allowed = {IQM + '::start': 'emplace', IQM + '::finish': 'erase', IQM + '::cancelAll': 'clear', IQM + '::handleStanza': 'erase'}
     uses = [(f, i, k, h) for f, i, k, h in field_uses(prog, REQ) if k in ('write', 'addr') and h != 'constructor initialiser']
-    if len(uses) < 4:
+    if len(uses) < 2:
         raise AnalysisBroken('C07.R1: writers of %s not found' % REQ)
     callers = prog.callers()
 
@@ -94,8 +96,18 @@ def r1(prog, run):
             if s['name'] == 'finish' and 'QXmppPromise' in (s.get('record') or ''):
                 if qn.endswith('cancelAll') and st and st[-1] == 'F':
                     return st
-                return st + ('F',)
+                # the promise that is completed must have been taken out of the table (a local), not be a reference into it
+                o = f.nodes[f.skip(n['obj'])] if n.get('obj') is not None else {}
+                into_table = False
+                if o.get('k') == 'var' and o.get('vk') == 'local':
+                    d_ = f.defs().get(o['decl']) or {}
+                    into_table = bool(d_.get('ref'))
+                elif o.get('k') == 'mem':
+                    into_table = True
+                return st + (('f' if into_table else 'F'),)
             if s['name'] in ('erase', 'clear') and n.get('obj') is not None and f.nodes[f.skip(n['obj'])].get('f') == REQ:
+                return st + ('E',)
+            if s.get('qname') in ('std::exchange', 'std::move') and n.get('args') and f.nodes[f.skip(n['args'][0])].get('f') == REQ:
                 return st + ('E',)
             if not n.get('op') and s.get('qname', '').startswith(IQM + '::') and f.id == fn.id:
                 # a part of the function extracted into another member: its completion / erasure effects happen here
@@ -126,16 +138,20 @@ def r1(prog, run):
             ret = [x[1] for x in st if isinstance(x, tuple)]
             ok = True
             why = ''
+            # a request leaves the table BEFORE it is completed: the continuation runs synchronously inside finish() and may re-enter the manager (end the
+            # session -> cancelAll(), send follow-up requests -> the table rehashes); an entry that is still in the table is then completed twice
             if qn.endswith('cancelAll'):
-                # any number of finishes (loop) then one clear
-                ok = ev in ('E', 'FE')
-                why = 'cancelAll must finish every entry and then clear the table'
+                # the table is emptied, then any number of completions (loop)
+                ok = ev in ('E', 'EF')
+                why = 'cancelAll must take all entries out of the table and then complete them (sequence "%s"): completing first lets a re-entering continuation see and ' \
+                      'complete the same requests again' % ev
             else:
-                if ev not in ('', 'FE'):
+                if ev not in ('', 'EF'):
                     ok = False
-                    why = 'completion/erasure sequence on this path is "%s" (expected none, or finish then erase)' % ev
+                    why = 'completion/erasure sequence on this path is "%s" (expected none, or erase then finish: a request that is completed while still in the table ' \
+                          'is completed again when its continuation re-enters the manager)' % ev
                 if qn.endswith('handleStanza'):
-                    if ev == 'FE' and ret != [True]:
+                    if ev == 'EF' and ret != [True]:
                         ok, why = False, 'a completed reply is not reported as handled'
                     if ev == '' and ret != [False]:
                         ok, why = False, 'handleStanza returns true without completing a request (reply swallowed)'
